@@ -92,6 +92,12 @@ def gen_op(rng, keys, max_value=None, ngram=True, big=0.12, zero=0.05, max_batch
             return ["ulist", [hx(k) for k in ks]]
         return ["ulist", [hx(pick()) for _ in range(int(rng.integers(0, max_batch + 1)))]]
     if r < 0.78:
+        if rng.random() < 0.03:
+            # a dict with many distinct fresh keys (batched dict paths)
+            seen = {}
+            for _ in range(int([64, 65, 100, 128, 256, 300][int(rng.integers(0, 6))])):
+                seen[hx(rand_key(rng, 1, 9, hot=0.1))] = val() if max_value is None or max_value > 3 else 1
+            return ["udict", [[k, v] for k, v in seen.items()]]
         n = int(rng.integers(0, max_batch + 1))
         seen = {}
         for _ in range(n):
@@ -102,7 +108,8 @@ def gen_op(rng, keys, max_value=None, ngram=True, big=0.12, zero=0.05, max_batch
     if r < 0.90:
         k = pick() if rng.random() < 0.5 else rand_key(rng, 0, 12)
         return ["ngram", hx(k), int(rng.integers(1, max(2, len(k) + 3)))]
-    ks = [pick() if rng.random() < 0.5 else rand_key(rng, 0, 10) for _ in range(int(rng.integers(0, 4)))]
+    n_keys = int(rng.integers(0, 4)) if rng.random() > 0.04 else int([64, 70, 128, 200][int(rng.integers(0, 4))])
+    ks = [pick() if rng.random() < 0.5 else rand_key(rng, 0, 10) for _ in range(n_keys)]
     return ["ungram", [hx(k) for k in ks], int(rng.integers(1, 6))]
 
 
